@@ -311,9 +311,21 @@ Fixpoint c02_events (c : cfg) (ns0 : list node) (rs : list req) (evs : list even
                                         end
                           end in
             let b_over := negb (oversize c t) in
+            (* the `exclusive` rule: a new tag with exclusive=True gets no node that an earlier tag uses while the
+               pilot has more nodes than tagged ones (the tagged set is the union of the recorded tag nodes) *)
+            let tgd := zadd_all (concat (map snd tags)) [] in
+            let b_excl := match r_colo t with
+                          | None => true
+                          | Some tag => match zlookup tag tags with
+                                        | Some _ => true
+                                        | None => if r_excl t && (length tgd <? length ns0)%nat
+                                                  then forallb (fun s => negb (zmem (s_node s) tgd)) sl else true
+                                        end
+                          end in
             let tags' := match r_colo t with Some tag => zstore tag (map s_node sl) tags | None => tags end in
             let acc' := match acc with
-                        | [a1; a2; a3; a4; a5] => [a1 && b_ranks; a2 && b_shape; a3 && b_rpn; a4 && b_colo; a5 && b_over]
+                        | [a1; a2; a3; a4; a5; a6] =>
+                            [a1 && b_ranks; a2 && b_shape; a3 && b_rpn; a4 && b_colo; a5 && b_over; a6 && b_excl]
                         | _ => acc end in
             c02_events c ns0 rs r tags' acc'
       end
@@ -322,7 +334,7 @@ Fixpoint c02_events (c : cfg) (ns0 : list node) (rs : list req) (evs : list even
 
 Definition c02_bits (c : cfg) (ns0 : list node) (ops : list op) (its : list (snap * list Z)) : list bool :=
   fst (c02_events c ns0 (all_reqs ops) (concat (map (fun p => sn_events (fst p)) its)) []
-                  [true; true; true; true; true]).
+                  [true; true; true; true; true; true]).
 
 (* ------------------------------------------------------------------ *)
 (* C04: nothing lost, nothing reported twice, progress                   *)
